@@ -17,7 +17,41 @@ def is_nan(x):
 
 SERIES_T = ["hampel", "imputer-mean", "imputer-ffill", "imputer-linear", "imputer-drift", "imputer-placeholder", "log", "detrender", "deseasonalizer", "passthrough", "cosine"]
 FORECASTERS = ["naive-last", "naive-mean", "naive-drift", "naive-drift-failing-predict", "poly", "sm-adapter", "reduce-recursive", "ensemble", "pipeline"]
-PANEL_T = ["padding", "truncation", "paa", "tabularizer", "concatenator", "interval", "sliding", "features"]
+PANEL_T = ["padding", "truncation", "paa", "tabularizer", "concatenator", "interval", "sliding", "features", "pca", "random-interval"]
+
+
+def _contract_pca(getW):
+    """scikit-learn's PCA reduced to its documented data contract: fit centres the data it is given -- on a copy
+    when copy=True (the default), *in place* when copy=False ("data passed to fit are overwritten"); transform never
+    writes to its argument; the scores are an uninterpreted function of the centred row."""
+    import numpy as np
+    from sklearn.base import BaseEstimator
+
+    class PCA(BaseEstimator):
+        def __init__(self, n_components=None, copy=True, **kw):
+            self.n_components = n_components
+            self.copy = copy
+
+        def fit(self, X, y=None):
+            if self.copy:
+                X = X.copy()
+            self.mean_ = [sum(X[:, j].tolist()) / X.shape[0] for j in range(X.shape[1])]
+            for j in range(X.shape[1]):
+                for i in range(X.shape[0]):
+                    X[i, j] = X[i, j] - self.mean_[j]
+            return self
+
+        def transform(self, X):
+            W = getW()
+            k = self.n_components or min(X.shape)
+            out = np.empty((X.shape[0], k), dtype=object)
+            for i in range(X.shape[0]):
+                row = [X[i, j] - self.mean_[j] for j in range(X.shape[1])] + [X[i, j] for j in range(X.shape[1])]
+                for c in range(k):
+                    out[i, c] = W.uf("pca_score%d_%d" % (c, len(row)), row, "r" * len(row) + ">r")
+            return out
+
+    return PCA
 
 
 class C12(Harness):
@@ -40,6 +74,16 @@ class C12(Harness):
         return out
 
     def make_world(self, kind, cell):
+        if cell["kind"] == "pt" and cell["which"] == "pca":
+            if kind == "conc":
+                return _c14.HARNESS.make_world(kind, {"kind": "x"})  # replays and trace validation run scikit-learn's real PCA
+            W = self.__dict__.get("_Wpca")
+            if W is None:
+                from .c04 import numba_stub
+
+                _c14.HARNESS.make_world(kind, {"kind": "x"})  # (applies the pandas shims)
+                W = self._Wpca = worlds.make_conc_world({"numba": numba_stub(), "sklearn.decomposition": types.SimpleNamespace(PCA=_contract_pca(lambda: self._Wpca))})
+            return W
         if cell["kind"] == "pt":
             return _c14.HARNESS.make_world(kind, {"kind": "x"})
         return Harness.make_world(self, kind, cell)
@@ -68,9 +112,14 @@ class C12(Harness):
             return int(v)
 
         if cell["kind"] == "pt":
-            c = {"kind": {"interval": "interval-int"}.get(cell["which"], cell["which"])}
+            c = {"kind": {"interval": "interval-int", "pca": "concatenator", "random-interval": "features"}.get(cell["which"], cell["which"])}
             _c14.HARNESS._tier = "quick"
-            return _c14.HARNESS.inputs(ctx, c)
+            inp = _c14.HARNESS.inputs(ctx, c)
+            if cell["which"] == "pca":
+                if len(inp["x"][0]) != 1:
+                    ctx.assume(False)  # univariate only
+                inp["copy"] = choice("copy", 0, 1)  # 0: the wrapper's default; 1: copy=True passed explicitly
+            return inp
         n = choice("n", 4, 5)
         inp = {"s0": ctx.fresh_int("s0"), "y": fresh_reals(ctx, "y", n), "z": fresh_reals(ctx, "z", 3)}
         w = cell["which"]
@@ -103,7 +152,9 @@ class C12(Harness):
         for k, v in sorted(vars(est).items()):
             if k == "_fh":
                 continue  # the horizon passed to the latest predict is remembered by design
-            if hasattr(v, "values") and hasattr(v, "index"):
+            if isinstance(v, (list, tuple)) and all(hasattr(e, "shape") and hasattr(e, "tolist") for e in v):
+                snap[k] = ["arrays", [L(e) if getattr(e, "ndim", 1) >= 1 else S(e) for e in v]]
+            elif hasattr(v, "values") and hasattr(v, "index"):
                 snap[k] = ["series", L(v.index), L(v.values) if getattr(v, "ndim", 1) == 1 else [L(r) for r in L(v.values)]]
             elif hasattr(v, "shape") and hasattr(v, "tolist"):
                 snap[k] = ["array", L(v) if getattr(v, "ndim", 1) >= 1 else S(v)]
@@ -253,6 +304,21 @@ class C12(Harness):
         out["r1"], out["r2"] = pack(p1), pack(p2)
         out["y_after_predict"] = pack(y)
         out["state"] = [before, mid, self._snapshot(f)]
+        # a result must not depend on which other apply-type calls came before: the absolute horizon {1, 2} asked
+        # right after fit, and asked after a predict for the relative steps {1, 2} (cutoff -1, so the two differ)
+        from sklearn.base import clone
+
+        FHc = W.load("sktime.forecasting.base").ForecastingHorizon
+        n = len(inp["y"])
+        y2 = pd.Series(list(inp["y"]), index=pd.RangeIndex(-n, 0))
+        res = []
+        for warm in (False, True):
+            g = clone(f)
+            g.fit(y2)
+            if warm:
+                g.predict(np.array([1, 2]))
+            res.append(pack(g.predict(FHc(np.array([1, 2]), is_relative=False))))
+        out["interleave"] = res
         return out
 
     def _panel(self, W, inp, cell):
@@ -262,15 +328,71 @@ class C12(Harness):
         w = {"interval": "interval-int"}.get(cell["which"], cell["which"])
         c14 = _c14.HARNESS
         X, sym = c14._nested(inp["x"])
+        run = (lambda XX: self._pca(W, XX, inp)) if w == "pca" else (lambda XX: c14._panel(W, XX, inp, {"kind": {"random-interval": "features"}.get(w, w)}, sym))
         worlds.TOKEN_MODE[0] = sym
         try:
             before = _c14.cells_of(X)
-            r1 = c14._panel(W, X, inp, {"kind": w}, sym)
+            r1 = run(X)
             after = _c14.cells_of(X)
-            r2 = c14._panel(W, X, inp, {"kind": w}, sym)
-            return {"before": before, "after": after, "r1": {k: v for k, v in r1.items() if k != "back"}, "r2": {k: v for k, v in r2.items() if k != "back"}}
+            r2 = run(X)
+            out = {"before": before, "after": after, "r1": {k: v for k, v in r1.items() if k != "back"}, "r2": {k: v for k, v in r2.items() if k != "back"}}
+            lens = {len(col) for inst in inp["x"] for col in inst}
+            t = self._pt_make(W, w, inp)
+            if t is not None and len(lens) == 1 and min(lens) >= 2:
+                # one fitted transformer: transform, transform a *shorter* panel in between, transform again
+                Xs, _ = c14._nested([[col[:-1] for col in inst] for inst in inp["x"]])
+                try:
+                    t.fit(X)
+                    s0_ = self._snapshot(t)
+                    a1 = _c14.cells_of(t.transform(X)) if w != "tabularizer" else [[S(v) for v in row] for row in t.transform(X).to_numpy().tolist()]
+                    s1_ = self._snapshot(t)
+                    try:
+                        t.transform(Xs)
+                        short = "returned"
+                    except Exception as e:  # noqa
+                        short = type(e).__name__
+                    s2_ = self._snapshot(t)
+                    a2 = _c14.cells_of(t.transform(X)) if w != "tabularizer" else [[S(v) for v in row] for row in t.transform(X).to_numpy().tolist()]
+                    out["proto"] = {"snaps": [s0_, s1_, s2_], "a1": a1, "a2": a2, "short": short}
+                except ValueError:
+                    out["proto"] = None
+            if len(lens) == 1 and w not in ("padding", "truncation"):
+                # the same panel handed over as a 3-D array (instances, columns, time points)
+                A = np.empty((len(inp["x"]), len(inp["x"][0]), lens.pop()), dtype=object if sym else float)
+                for i, inst in enumerate(inp["x"]):
+                    for j, col in enumerate(inst):
+                        for t, v in enumerate(col):
+                            A[i, j, t] = v
+                out["before3"] = [[[S(v) for v in col] for col in inst] for inst in A.tolist()]
+                r3 = run(A)
+                out["after3"] = [[[S(v) for v in col] for col in inst] for inst in A.tolist()]
+                out["r3"] = {k: v for k, v in r3.items() if k != "back"}
+                out["r3b"] = {k: v for k, v in run(A).items() if k != "back"}
+            return out
         finally:
             worlds.TOKEN_MODE[0] = False
+
+    def _pt_make(self, W, w, inp):
+        P = "sktime.transformations.panel"
+        if w == "paa":
+            return W.load(P + ".dictionary_based._paa").PAA(num_intervals=inp["m"])
+        if w == "tabularizer":
+            return W.load(P + ".reduce").Tabularizer()
+        if w == "concatenator":
+            return W.load(P + ".compose").ColumnConcatenator()
+        if w == "interval-int":
+            return W.load(P + ".segment").IntervalSegmenter(intervals=inp["k"])
+        if w == "random-interval":
+            return W.load(P + ".segment").RandomIntervalSegmenter(n_intervals=2, random_state=inp["seed"])
+        if w == "sliding":
+            return W.load(P + ".segment").SlidingWindowSegmenter(window_length=inp["w"])
+        return None
+
+    def _pca(self, W, X, inp):
+        PT = W.load("sktime.transformations.panel.pca").PCATransformer
+        t = PT(n_components=1, **({"copy": True} if inp["copy"] else {}))
+        r = t.fit(X).transform(X)
+        return {"cells": _c14.cells_of(r)}
 
     # ------------------------------------------------------------------
     def _same_tree(self, P, label, a, b, detail=None):
@@ -298,6 +420,16 @@ class C12(Harness):
         if cell["kind"] == "pt":
             self._same_tree(P, "apply-leaves-caller-data-unchanged", out["after"], out["before"], d)
             self._same_tree(P, "repeated-apply-same-result", out["r2"], out["r1"], d)
+            pr = out.get("proto")
+            if pr:
+                s0_, s1_, s2_ = pr["snaps"]
+                self._same_tree(P, "apply-leaves-estimator-unchanged", s1_, s0_, dict(d, after="transform"))
+                self._same_tree(P, "apply-leaves-estimator-unchanged", s2_, s0_, dict(d, after="transform of a shorter panel (%s)" % pr["short"]))
+                self._same_tree(P, "repeated-apply-same-result", pr["a2"], pr["a1"], dict(d, what="same fitted transformer, a shorter panel transformed in between"))
+            if "before3" in out:
+                d3 = dict(d, container="3-D array")
+                self._same_tree(P, "fit-leaves-caller-data-unchanged", out["after3"], out["before3"], d3)
+                self._same_tree(P, "repeated-apply-same-result", out["r3b"], out["r3"], d3)
             return
         s0 = inp["s0"]
         n = len(inp["y"])
@@ -315,11 +447,17 @@ class C12(Harness):
             self._same_tree(P, "apply-leaves-caller-data-unchanged", out["r1_after_inverse"], out["r1_in"], d)
             self._same_tree(P, "repeated-apply-same-result", out["r3"], out["r1"], d)
         self._same_tree(P, "repeated-apply-same-result", out["r2"], out["r1"], d)
+        if "interleave" in out:
+            self._same_tree(P, "repeated-apply-same-result", out["interleave"][1], out["interleave"][0], dict(d, what="after an interleaved predict with another horizon"))
+            for lab, want in zip(out["interleave"][0][0], (1, 2)):
+                P.eq("repeated-apply-same-result", lab, want, dict(d, what="absolute horizon labels"))
         b, m, a = out["state"]
         self._same_tree(P, "apply-leaves-estimator-unchanged", m, b, d)
         self._same_tree(P, "apply-leaves-estimator-unchanged", a, b, d)
 
     def comparable(self, out, cell):
+        if cell.get("which") == "pca":  # the scores come from the contract model (symbolic) resp. the real SVD (concrete): only the data are compared
+            return {k: v for k, v in out.items() if k in ("before", "after", "before3", "after3")}
         def strip(t):
             if isinstance(t, dict):
                 return {k: strip(v) for k, v in t.items()}
